@@ -72,7 +72,9 @@ Proof. destruct r; cbn; split; intros H; try reflexivity; discriminate. Qed.
 Lemma sweep2 : forall P : bool -> config -> bool,
   forallb (fun f => forallb (P f) all_configs) [false; true] = true -> forall f c, P f c = true.
 Proof.
-  intros P H f c. cbn in H. rewrite !andb_true_iff in H. destruct H as [H0 [H1 _]].
+  intros P H f c.
+  change (forallb (P false) all_configs && (forallb (P true) all_configs && true) = true) in H.
+  rewrite !andb_true_iff in H. destruct H as [H0 [H1 _]].
   destruct f; [exact (sweep _ H1 c) | exact (sweep _ H0 c)].
 Qed.
 (* every accepted configuration is supported, and nothing supported is refused *)
@@ -722,23 +724,15 @@ Qed.
 Lemma wfprobeb_WF : forall p, wfprobeb p = true -> WFprobe p.
 Proof. destruct p; cbn; intros H; try exact I; apply wf_netb_WF, H. Qed.
 
-Lemma mixed_ok_supported : forall b s v fp e, mixed_outcome b s v fp e = Ok -> Supported (mixed_config b s v e).
+Lemma mixed_ok_supported : forall b s v fp e, g6 fixed_F6 (mixed_config b s v e) = true ->
+  mixed_outcome b s v fp e = Ok -> Supported (mixed_config b s v e).
+Proof. intros b s v fp e G H. apply (outcome_ok_supported _ G), H. Qed.
+Lemma pop_ok_supported : forall b s v fp e, g6 fixed_F6 (pop_config b s v e) = true ->
+  pop_outcome b s v fp e = Ok -> Supported (pop_config b s v e).
 Proof.
-  intros b s v fp e H. unfold mixed_outcome in H.
-  destruct (validate_backend_args (mixed_config b s v e)); cbn in H; try discriminate.
-  destruct v; [discriminate|]. apply outcome_ok_supported, H.
-Qed.
-Lemma pop_ok_supported : forall b s v fp e, pop_outcome b s v fp e = Ok -> Supported (mixed_config b s v e).
-Proof.
-  intros b s v fp e H. unfold pop_outcome in H.
-  destruct (validate_backend_args (mixed_config b s v e)); cbn in H; try discriminate.
-  destruct (backend_eqb b BFortran); [discriminate|]. apply accepts_iff_supported, H.
-Qed.
-Lemma accepts_not_warn : forall c, accepts c <> Warn.
-Proof.
-  intros c. unfold accepts, validate_backend_args, delay_buffer_check, validate_solver, sparse_check.
-  destruct (vec c && _); cbn; [discriminate|]. destruct (uses_edge_delay_buffer c && _); cbn; [discriminate|].
-  destruct (en c); [destruct (existsb _ _) | | destruct (sparse c && _)]; discriminate.
+  intros b s v fp e G H. unfold pop_outcome in H.
+  destruct (validate_backend_args (pop_config b s v e)); cbn in H; try discriminate.
+  destruct (backend_eqb b BFortran); [discriminate|]. apply (accepts_iff_supported _ G), H.
 Qed.
 Lemma pop_not_warn : forall b s v fp e, pop_outcome b s v fp e <> Warn.
 Proof.
@@ -747,11 +741,7 @@ Proof.
   destruct (backend_eqb b BFortran); [discriminate|]. exact (accepts_not_warn _ H).
 Qed.
 Lemma mixed_not_warn : forall b s v fp e, mixed_outcome b s v fp e <> Warn.
-Proof.
-  intros b s v fp e H. unfold mixed_outcome in H.
-  unfold validate_backend_args in H. destruct (vec _ && _); cbn in H; [discriminate|].
-  destruct v; [discriminate|]. exact (outcome_not_warn _ H).
-Qed.
+Proof. intros b s v fp e H. exact (outcome_not_warn _ H). Qed.
 
 Lemma flat_probe_ok : forall k depth net p, WFnet net -> flat_probe_result k depth net p = Ok ->
   match k with HNodeValue => NodeValueTarget net p | _ => Path3 net p end.
@@ -901,12 +891,13 @@ Qed.
 (* C20: whatever returns quietly was a well-formed / supported request *)
 Theorem impl_ok_wellformed : forall p, WFprobe p -> guard p = true -> impl p = Ok -> WellFormed p.
 Proof.
-  intros p W G H. unfold guard in G. apply andb_true_iff in G. destruct G as [G G5].
+  intros p W G H. unfold guard in G. apply andb_true_iff in G. destruct G as [G G6].
+  apply andb_true_iff in G. destruct G as [G G5].
   apply andb_true_iff in G. destruct G as [G G4].
   destruct p; cbn [impl WellFormed WFprobe] in *.
-  - apply outcome_ok_supported, H.
-  - apply (mixed_ok_supported b s v first_plain e), H.
-  - apply (pop_ok_supported b s v first_plain e), H.
+  - apply (outcome_ok_supported c G6), H.
+  - apply (mixed_ok_supported b s v first_plain e G6), H.
+  - apply (pop_ok_supported b s v first_plain e G6), H.
   - apply check_vname_ok_iff, H.
   - apply scan_vars_ok_iff, H.
   - apply check_equation_ok_iff, H.
@@ -1046,30 +1037,55 @@ Proof.
     unfold F3_probe, impl, verify_path. rewrite E. vm_compute. reflexivity.
   - unfold F3_probe, guard_path_not_attr. rewrite E. vm_compute. reflexivity.
 Qed.
-Lemma guard_true_when_fixed : fixed_F3 = true -> fixed_F4 = true -> fixed_F5 = true -> forall p, guard p = true.
+Lemma guard3_when_fixed : fixed_F3 = true -> forall p, guard_path_not_attr p = true.
+Proof. intros E p. unfold guard_path_not_attr. destruct p; try reflexivity; rewrite E; reflexivity. Qed.
+Lemma guard4_when_fixed : fixed_F4 = true -> forall p, guard_node_value_not_circuit p = true.
 Proof.
-  intros E3 E4 E5 p. unfold guard, guard_path_not_attr, guard_node_value_not_circuit, guard_backend_documented.
-  destruct p; try reflexivity; try (rewrite E3; reflexivity).
-  - destruct k; try reflexivity; rewrite ?E3, ?E4; reflexivity.
-  - destruct k; try reflexivity; rewrite ?E5; reflexivity.
+  intros E p. unfold guard_node_value_not_circuit. destruct p; try reflexivity.
+  destruct k; try reflexivity; rewrite E; reflexivity.
 Qed.
-(* after D76 and D79 (fixed_F3 = fixed_F4 = true) the only guard left is the one of F5 *)
-Theorem C20_full_modulo_F5_when_F3_F4_fixed : fixed_F3 = true -> fixed_F4 = true ->
-  forall p, WFprobe p -> guard_backend_documented p = true -> impl p = Ok -> WellFormed p.
+Lemma guard5_when_fixed : fixed_F5 = true -> forall p, guard_backend_documented p = true.
 Proof.
-  intros E3 E4 p W G Hi. apply (impl_ok_wellformed p W); [|exact Hi].
-  unfold guard. rewrite G, andb_true_r. unfold guard_path_not_attr, guard_node_value_not_circuit.
-  destruct p; try reflexivity; try (rewrite E3; reflexivity).
-  destruct k; try reflexivity; rewrite ?E3, ?E4; reflexivity.
+  intros E p. unfold guard_backend_documented. destruct p; try reflexivity.
+  destruct k; try reflexivity; rewrite E; reflexivity.
 Qed.
-(* with all repairs (D76 = F3, D79 = F4, proposed_fix_C20_F5): the full statement is a theorem *)
-Theorem C20_full_when_fixed : fixed_F3 = true -> fixed_F4 = true -> fixed_F5 = true -> C20_full_statement.
+Lemma guard6_when_fixed : fixed_F6 = true -> forall p, guard_solver_checked_at_entry p = true.
 Proof.
-  intros E3 E4 E5 p W Hi. apply (impl_ok_wellformed p W); [|exact Hi]. apply (guard_true_when_fixed E3 E4 E5).
+  intros E p. unfold guard_solver_checked_at_entry, g6. destruct p; try reflexivity; rewrite E; reflexivity.
 Qed.
-Theorem malformed_is_loud_when_fixed : fixed_F3 = true -> fixed_F4 = true -> fixed_F5 = true ->
+Lemma guard_true_when_fixed : fixed_F3 = true -> fixed_F4 = true -> fixed_F5 = true -> fixed_F6 = true ->
+  forall p, guard p = true.
+Proof.
+  intros E3 E4 E5 E6 p. unfold guard.
+  rewrite (guard3_when_fixed E3), (guard4_when_fixed E4), (guard5_when_fixed E5), (guard6_when_fixed E6). reflexivity.
+Qed.
+(* after D76, D79 and D109 (fixed_F3 = fixed_F4 = fixed_F5 = true) the only guard left is the one of F6 *)
+Theorem C20_full_modulo_F6_when_others_fixed : fixed_F3 = true -> fixed_F4 = true -> fixed_F5 = true ->
+  forall p, WFprobe p -> guard_solver_checked_at_entry p = true -> impl p = Ok -> WellFormed p.
+Proof.
+  intros E3 E4 E5 p W G Hi. apply (impl_ok_wellformed p W); [|exact Hi].
+  unfold guard. rewrite (guard3_when_fixed E3), (guard4_when_fixed E4), (guard5_when_fixed E5), G. reflexivity.
+Qed.
+(* with all repairs: the full statement is a theorem *)
+Theorem C20_full_when_fixed : fixed_F3 = true -> fixed_F4 = true -> fixed_F5 = true -> fixed_F6 = true -> C20_full_statement.
+Proof.
+  intros E3 E4 E5 E6 p W Hi. apply (impl_ok_wellformed p W); [|exact Hi]. apply (guard_true_when_fixed E3 E4 E5 E6).
+Qed.
+Theorem malformed_is_loud_when_fixed : fixed_F3 = true -> fixed_F4 = true -> fixed_F5 = true -> fixed_F6 = true ->
   forall p, WFprobe p -> ~ WellFormed p -> loud_enough p (impl p).
-Proof. intros E3 E4 E5 p W. apply (malformed_is_loud p W), (guard_true_when_fixed E3 E4 E5). Qed.
+Proof. intros E3 E4 E5 E6 p W. apply (malformed_is_loud p W), (guard_true_when_fixed E3 E4 E5 E6). Qed.
+(* the code as it is: get_run_func hands out a function for a solver the backend does not have (finding F6) *)
+Definition F6_probe : probe := PConfig (mkc BDefault SOther true DNone false true EFunc).
+Theorem C20_refuted_solver_in_get_run_func : fixed_F6 = false ->
+  ~ C20_full_statement /\ guard_solver_checked_at_entry F6_probe = false.
+Proof.
+  intros E. split.
+  - apply (refute_by F6_probe); [vm_compute; reflexivity | | vm_compute; reflexivity].
+    unfold F6_probe, impl, outcome. rewrite E. vm_compute. reflexivity.
+  - unfold F6_probe, guard_solver_checked_at_entry, g6. rewrite E. vm_compute. reflexivity.
+Qed.
+Theorem solver_in_get_run_func_repaired : forall c, accepts_gen true c = Ok <-> Supported c.
+Proof. intros c. apply accepts_gen_iff_supported. reflexivity. Qed.
 (* the code as it is: an undocumented backend name silently selects the numpy backend (finding F5) *)
 Definition F5_probe : probe := POption OBackend (Some "JAX").
 Theorem C20_refuted_backend_name : fixed_F5 = false -> ~ C20_full_statement /\ guard_backend_documented F5_probe = false.
